@@ -15,3 +15,12 @@ func simHook(point, key string) {
 		f(point, key)
 	}
 }
+
+// simWrapCron makes every cron job start with a schedule point, so that jobs firing on the
+// same tick (spawned in Go map order) are ordered by the harness.
+func simWrapCron(name string, task func()) func() {
+	return func() {
+		simHook("cron", name)
+		task()
+	}
+}
